@@ -33,6 +33,8 @@ MANIFEST = {
 }
 BUDGET = {'quick': 80, 'thorough': 1500}
 MISMATCH_BUDGET = 0.0
+ESCALATE_BUDGET = 200
+SEARCH_BUDGET = 150
 RULE = ('streams: scale (all kinds x 12 factors), split3 (trapezoids on/off raster), splitat (trap/triangle/extended '
         'trapezoid x zero/non-zero delay x every raster cut time from before 0 to after the end, with jitter), align '
         '(rf with ring-down, adc, trap, ext, arbitrary, delay, trigger, output; specs in any keyword order; negative '
@@ -1015,12 +1017,12 @@ def run(ctx):
     mult = 25 if big else 1
     run_cases(ctx, corpus() + [KF9_CASE, TRIANGLE_CASE])
     cases = []
-    cases += gen_scale_cases(ctx.rng('scale'), 250 * mult)
-    cases += gen_split3_cases(ctx.rng('split3'), 200 * mult)
-    cases += gen_splitat_cases(ctx.rng('splitat'), 70 * mult, 22 if not big else 60)
-    cases += gen_splitat_special(ctx.rng('splitat-special'), 60 * mult)
-    cases += gen_align_cases(ctx.rng('align'), 250 * mult)
-    cases += gen_modaxis_cases(ctx.rng('modaxis'), 60 * mult)
+    cases += gen_scale_cases(ctx.rng('scale'), 400 * mult)
+    cases += gen_split3_cases(ctx.rng('split3'), 300 * mult)
+    cases += gen_splitat_cases(ctx.rng('splitat'), 130 * mult, 24 if not big else 60)
+    cases += gen_splitat_special(ctx.rng('splitat-special'), 120 * mult)
+    cases += gen_align_cases(ctx.rng('align'), 450 * mult)
+    cases += gen_modaxis_cases(ctx.rng('modaxis'), 150 * mult)
     for i, c in enumerate(cases):
         if i % 531 == 7:
             ctx.sample(c)
